@@ -107,19 +107,68 @@ def gen_project(rng, conflict):
         keys[t] = {l: ("str", gen_pieces(rng, need_key=True)) for l in locales}
     keys["pl0"] = {l: ("plural", "cardinal", {"one": [("text", "one")], "other": [("var", "count", None), ("text", "items")]})
                    for l in locales}
+    # targets of foreign keys WITH arguments: an interpolation, a range table and a plural, all using `{{ name }}`
+    def with_name(ps):
+        return ps + [("var", "name", rng.choice([None, None, "number"]))]
+    keys["g0"] = {l: ("str", with_name(gen_pieces(rng)) + ([("var", "other", None)] if rng.random() < 0.5 else [])) for l in locales}
+    keys["g1"] = {l: ("ranges", None, [with_name(gen_pieces(rng)), gen_pieces(rng), with_name([("text", "rest")])]) for l in locales}
+    keys["g2"] = {l: ("plural", "cardinal", {"one": with_name([("text", "one")]), "other": with_name(gen_pieces(rng))}) for l in locales}
     nk = rng.choice([6, 10, 16])
     bad = rng.randrange(nk) if conflict else -1
     fk_in_plural = rng.random() < 0.15          # some projects use `$t(..)` inside plural forms
     for i in range(nk):
         ck = rng.choice([None, None, ("range", None), ("range", "u64"), ("range", "f32"), "plural"])
+        arg_target = None
+        if i != bad and rng.random() < 0.3:
+            # a key that, in some locales, is `$t(target, {args})`; its count type follows the target
+            arg_target = rng.choice(["g0", "g0", "g1", "g2"])
+            ck = {"g0": None, "g1": ("range", None), "g2": "plural"}[arg_target]
         vals = {}
+        n_args = 0
         for j, l in enumerate(locales):
             kind = ck
             if i == bad:
                 kind = "free"
-            vals[l] = gen_value(rng, kind, j == 0, targets, fk_in_plural)
+            if arg_target and (rng.random() < 0.5 or (j == len(locales) - 1 and n_args == 0)):
+                vals[l] = ("fkargs", arg_target, gen_args(rng))
+                n_args += 1
+            else:
+                vals[l] = gen_value(rng, kind, j == 0, targets, fk_in_plural)
         keys["k%d" % i] = vals
     return locales, keys
+
+
+ARG_COMPS = ["z1", "z2"]       # names that occur nowhere else: an argument is their only source
+ARG_VARS = ["w1", "w2"]
+
+
+def gen_arg_pieces(rng, shape):
+    txt = ("text", rng.choice(WORDS))
+    var = ("var", rng.choice(ARG_VARS), rng.choice([None, "number"]))
+    c1, c2 = ARG_COMPS if rng.random() < 0.5 else ARG_COMPS[::-1]
+    return {
+        "text": [txt],
+        "var": [var],
+        "comp": [("comp", c1, [txt])],                                   # component only: `<z1>World</z1>`
+        "nested": [("comp", c1, [("comp", c2, [txt])])],
+        "comp_var": [("comp", c1, [var]), txt],
+        "mixed": [txt, var, ("comp", c2, [txt])],
+        "fk": [("fk", rng.choice(["t0", "t1"]))],                        # nested `$t(..)` in the argument
+        "comp_fk": [("comp", c1, [("fk", "t0")])],
+    }[shape]
+
+
+def gen_args(rng):
+    args = {}
+    names = ["name"] + (["other"] if rng.random() < 0.4 else []) + (["nobody"] if rng.random() < 0.15 else [])
+    for nm in names:
+        r = rng.random()
+        if r < 0.75:
+            args[nm] = ("pieces", gen_arg_pieces(rng, rng.choice(["text", "var", "comp", "comp", "nested", "comp_var", "mixed", "fk",
+                                                                   "comp_fk"])))
+        else:
+            args[nm] = rng.choice([("num", 5), ("num", -3), ("num", 1.5), ("bool", True)])
+    return args
 
 
 def value_json(name, v, out):
@@ -134,6 +183,8 @@ def value_json(name, v, out):
         out[name] = "$t(%s)" % v[1]
     elif k == "fkcount":
         out[name] = "$t(pl0, {\"count\": \"{{ %s }}\"})" % v[1]
+    elif k == "fkargs":
+        out[name] = "$t(%s, %s)" % (v[1], json.dumps({nm: (pieces_json(a[1]) if a[0] == "pieces" else a[1]) for nm, a in v[2].items()}))
     elif k == "plural":
         for f, ps in v[2].items():
             out[name + ("_ordinal" if v[1] == "ordinal" else "") + "_" + f] = pieces_json(ps)
@@ -181,6 +232,8 @@ def pv_pieces(ps, intern, rename=None, locale_vals=None):
     for p in ps:
         if p[0] == "text":
             items.append("(PLit LString)")
+        elif p[0] == "lit":
+            items.append("(PLit %s)" % LIT[p[1]])      # a number / bool argument substituted for a variable
         elif p[0] == "fk":
             # `$t(target)` inside a longer string (only generated inside plural forms)
             items.append("(PForeign %s)" % pv_pieces(locale_vals[p[1]][1], intern))
@@ -194,7 +247,8 @@ def pv_pieces(ps, intern, rename=None, locale_vals=None):
     # reduce: adjacent literals are joined, a bloc of one element is that element
     red = []
     for it in items:
-        if it == "(PLit LString)" and red and red[-1] == it:
+        if it.startswith("(PLit ") and red and red[-1].startswith("(PLit "):
+            red[-1] = "(PLit LString)"                   # Literal::join always yields a string
             continue
         red.append(it)
     if not red:
@@ -218,6 +272,38 @@ def pv_value(v, locale_vals, intern):
         return pv_pieces(v[1], intern)
     if k == "fk":
         return "(PForeign %s)" % pv_pieces(locale_vals[v[1]][1], intern)
+    if k == "fkargs":
+        tv = locale_vals[v[1]]
+        args = v[2]
+
+        def subst(ps):
+            """ParsedValue::populate: every variable named like an argument is replaced by the argument's value"""
+            out = []
+            for p in ps:
+                if p[0] == "var" and p[1] in args:
+                    a = args[p[1]]
+                    if a[0] == "pieces":
+                        out.extend(a[1])
+                    elif a[0] == "bool":
+                        out.append(("lit", "Bool"))
+                    else:
+                        out.append(("lit", "Float" if isinstance(a[1], float) else "Signed" if a[1] < 0 else "Unsigned"))
+                elif p[0] == "comp":
+                    out.append(("comp", p[1], subst(p[2])))
+                else:
+                    out.append(p)
+            return out
+        if tv[0] == "str":
+            # `reduce` replaces a resolved foreign key by its value: when every variable was substituted by text or a
+            # number the value is a plain literal and takes the literal branch of `merge`
+            return pv_pieces(subst(tv[1]), intern, None, locale_vals)
+        if tv[0] == "ranges":
+            return "(PForeign (PRanges %d %d %s))" % (range_ty(tv[1]), intern("var_count"),
+                                                      core.coq_list([pv_pieces(subst(b), intern, None, locale_vals) for b in tv[2]]))
+        forms = [f for f in ["zero", "one", "two", "few", "many"] if f in tv[2]]
+        return "(PForeign (PPlural %d %s %s))" % (intern("var_count"),
+                                                  core.coq_list([pv_pieces(subst(tv[2][f]), intern, None, locale_vals) for f in forms]),
+                                                  pv_pieces(subst(tv[2]["other"]), intern, None, locale_vals))
     if k == "fkcount":
         pl = locale_vals["pl0"]
         forms = [f for f in ["zero", "one", "two", "few", "many"] if f in pl[2]]
@@ -376,6 +462,11 @@ def run(ctx):
         (["en", "fr", "ja"], {"k0": {"en": ("lit", "String"), "fr": ("str", [("var", "a", None)]),
                                      "ja": ("str", [("comp", "b", [("var", "count", "number")])])}}),
         (["en", "fr", "ja"], {"k0": {"en": ("lit", "String"), "fr": ("lit", "Bool"), "ja": ("null",)}}),
+        # a component that only exists in a foreign-key argument, in one locale
+        (["en", "fr", "de"], {"greet": {l: ("str", [("text", "Hello"), ("var", "name", None)]) for l in ["en", "fr", "de"]},
+                              "welcome": {"en": ("fkargs", "greet", {"name": ("pieces", [("comp", "b", [("text", "World")])])}),
+                                          "fr": ("str", [("text", "Bienvenue")]),
+                                          "de": ("str", [("comp", "i", [("var", "who", None)])])}}),
         # `$t(..)` inside plural forms (also a lone `_other`, merged by the second pass)
         (["en", "ja"], {"t0": {"en": ("str", [("text", "hello"), ("var", "name", None)]), "ja": ("str", [("var", "name", None)])},
                         "k0": {"en": ("plural", "cardinal", {"one": [("fk", "t0"), ("text", "item")], "other": [("var", "count", None)]}),
@@ -482,7 +573,9 @@ def run(ctx):
         "evaluations": len(items), "distinct_nontrivial": len(nontrivial),
         "rule": "random projects (2-8 locales, 9-19 keys); per key and locale a random kind among literal (5 types), interpolated "
                 "string (variables with/without formatter, nested components), range table (i32/u64/f32/i64), plural group, "
-                "foreign key to an interpolated key, foreign key to a plural renaming its count, null; one key of 30% of the "
+                "foreign key to an interpolated key, foreign key to a plural renaming its count, foreign key with arguments "
+                "(text / variable / component / nested components / nested $t / numbers / bools, the components and variables of "
+                "the arguments occur nowhere else) to an interpolation, a range table or a plural, null; one key of 30% of the "
                 "projects mixes count types freely (conflicts); corpus first; non-trivial = kinds differ between locales, "
                 "distinct by Coq case term",
         "samples": [dict(m, code=c) for m, c in list(zip(meta, codes))[:2] + list(zip(meta, codes))[40:43]],
@@ -546,7 +639,7 @@ def replay(ctx, path):
     exe = os.path.join(core.cargo_build("h_plurals"), "h_plurals")
     locales = fi["locales"]
     vals = {l: _value(fi["values"][l]) for l in locales}
-    if any(v[0] in ("fk", "fkcount") for v in vals.values()):
+    if any(v[0] in ("fk", "fkcount", "fkargs") for v in vals.values()):
         print("the stored value refers to other keys of its project (foreign key); re-run ./check C08 --seed %d instead" % ctx.seed)
         return 0
     keys = {"k0": vals}
